@@ -122,7 +122,7 @@ class C01(Spec):
                    '(counted in the evidence)']
 
     def gen(self, tier, rng):
-        n = 120 if tier == 'quick' else 1000
+        n = 100 if tier == 'quick' else 1000
         nextra = 6 if tier == 'quick' else 12
         cases = []
         for k in range(n):
